@@ -1607,13 +1607,13 @@ def merge_typesystems(*typesystems: TypeSystem) -> TypeSystem:
             merged_types.add(t.name)
             updated_type_list.remove(t)
 
-        # If there was no progress in the last iteration, then the leftover types cannot be merged
-        if len(type_list) == len(updated_type_list):
-            raise ValueError("Unmergeable types" + ", ".join([t.name for t in type_list]))
-
         # If there are no types to merge left, then we are done
         if len(updated_type_list) == 0:
             break
+
+        # If there was no progress in the last iteration, then the leftover types cannot be merged
+        if len(type_list) == len(updated_type_list):
+            raise ValueError("Unmergeable types" + ", ".join([t.name for t in type_list]))
 
         type_list = updated_type_list
 
